@@ -14,6 +14,9 @@ WRAP_PTHREAD = ("pthread_create pthread_join pthread_detach pthread_mutex_init p
                 "pthread_mutex_trylock pthread_mutex_unlock pthread_cond_init pthread_cond_destroy pthread_cond_wait "
                 "pthread_cond_timedwait pthread_cond_signal pthread_cond_broadcast clock_gettime clock_getres time").split()
 SAN = ["-fsanitize=address,undefined", "-fno-sanitize-recover=undefined"]
+# the translator properties (C10) speak of memory operations only: no shift/overflow/conversion checks there
+SAN_MEM = ["-fsanitize=address,null,bounds,alignment,object-size,nonnull-attribute,returns-nonnull-attribute,vla-bound",
+           "-fno-sanitize-recover=null,bounds,alignment,object-size,nonnull-attribute,returns-nonnull-attribute,vla-bound"]
 
 
 def log(*a):
